@@ -319,13 +319,19 @@ impl Number {
             },
             Number::Float(num) => num.powf(exp as f64).into(),
             Number::BigInt(lhs) => lhs.pow(exp).into(),
-            Number::Rational(num) => {
-                if exp.to_i32().is_some() {
-                    num.pow(exp as i32).into()
-                } else {
-                    num.to_f64().unwrap_or(f64::NAN).powf(exp as f64).into()
-                }
+            Number::Rational(num) if num.is_integer() => {
+                Number::Fixnum(num.to_integer() as i64).pow(exp)
             }
+            Number::Rational(num) => match checked_pow(*num, exp) {
+                Some(num) => num.into(),
+                // Not representable: round the exact power once. powf on the rounded
+                // base would multiply the rounding error by the exponent.
+                None if exp <= 1024 => num::pow::pow(self.to_big_rational().unwrap(), exp as usize)
+                    .to_f64()
+                    .unwrap_or(f64::NAN)
+                    .into(),
+                None => num.to_f64().unwrap_or(f64::NAN).powf(exp as f64).into(),
+            },
         }
     }
 }
@@ -372,6 +378,23 @@ impl Number {
                 .partial_cmp(&rhs.to_big_rational()?),
         }
     }
+}
+
+/// Raise a rational to a power by repeated squaring, or None as soon as the
+/// numerator or denominator no longer fits in 32 bits.
+fn checked_pow(base: Rational32, mut exp: u32) -> Option<Rational32> {
+    let mut base = Some(base);
+    let mut result = Rational32::from_integer(1);
+    while exp > 0 {
+        if exp & 1 == 1 {
+            result = result.checked_mul(&base?)?;
+        }
+        exp >>= 1;
+        if exp > 0 {
+            base = base.and_then(|base| base.checked_mul(&base));
+        }
+    }
+    Some(result)
 }
 
 impl Eq for Number {}
